@@ -1,6 +1,9 @@
 package main
 
 import (
+	"os/exec"
+	"runtime/debug"
+	"runtime/pprof"
 	"encoding/json"
 	"flag"
 	"fmt"
@@ -73,8 +76,16 @@ func main() {
 		logDir   = flag.String("smtlog", "", "directory for SMT logs")
 		pkgsF    = flag.String("pkgs", "./...", "package patterns (comma separated)")
 		listFns  = flag.String("dump", "", "dump SSA of function (pkg.Func)")
+		cpuprof  = flag.String("cpuprofile", "", "write cpu profile")
 	)
 	flag.Parse()
+	// the loaded program is a large, long-lived heap: collect rarely
+	debug.SetGCPercent(1000)
+	if *cpuprof != "" {
+		f, _ := os.Create(*cpuprof)
+		pprof.StartCPUProfile(f)
+		defer pprof.StopCPUProfile()
+	}
 
 	overlay := map[string][]byte{}
 	if *overlayF != "" {
@@ -229,6 +240,9 @@ func runJob(prog *ssa.Program, job Job, trace bool, logDir string) (res *JobResu
 	bin := job.Solver
 	if bin == "" {
 		bin = "z3"
+		if _, err := exec.LookPath("z3-new"); err == nil {
+			bin = "z3-new" // z3 5.1.0: about twice as fast on these queries; thorough re-checks with 4.8.12
+		}
 	}
 	to := job.Timeout
 	if to == 0 {
